@@ -28,12 +28,13 @@ def main():
         demo = os.path.join(ddir, "zz_seed_demo_test.go")
         shutil.copy(os.path.join(src, "demo_test.go"), demo)
         test = meta["demo_test"]
-        rc0, o0 = sh(f"go test -vet=off -count=1 -run '{test}' .", cwd=ddir)
+        flags = meta.get("demo_flags", "")
+        rc0, o0 = sh(f"go test -vet=off -count=1 {flags} -run '{test}' .", cwd=ddir)
         out["demo_on_clean_tree"] = "pass" if rc0 == 0 else "FAIL"
         rc, o = sh(f"git apply {os.path.join(src,'patch.diff')}", cwd=wt)
         if rc != 0: out["error"] = "patch does not apply: " + o[-300:]; return out
         rc, o = sh("go build ./...", cwd=wt); out["builds"] = rc == 0
-        rc1, o1 = sh(f"go test -vet=off -count=1 -run '{test}' .", cwd=ddir)
+        rc1, o1 = sh(f"go test -vet=off -count=1 {flags} -run '{test}' .", cwd=ddir)
         out["demo_with_change"] = "fail" if rc1 != 0 else "PASSES"
         os.remove(demo)
         rc2, o2 = sh("go test -vet=off -count=1 ./...", cwd=wt)
